@@ -220,6 +220,58 @@ def run_batch(b):
                 if compare(acc, o, l, rd, "avp%d" % i, wit) and o.dump() != R.encode_avp(l):
                     acc.violation("redump-differs", "AVP %d re-dump differs" % i, wit)
                 acc.sigs.add(harness.sig_hash("avpload/%r/%d/%s" % (l.vendor, l.code, flag_class(l.flags))))
+    elif b["kind"] == "late-classes":
+        # the documented extension path: an application defines its own DiameterAVP subclasses (docs/avps.md) - possibly after
+        # the library has already decoded traffic.  A pair becomes "known" when its class is defined; before that it is unknown.
+        from bromelia.base import DiameterMessage
+        from bromelia.types import OctetStringType, Unsigned32Type
+        from bromelia.utils import convert_to_4_bytes
+        fresh_vendor = 37000 + r.randrange(500)
+        plan = [(None, 59001 + r.randrange(100)), (10415, 59200 + r.randrange(100)), (13019, 59400 + r.randrange(100)), (fresh_vendor, r.randrange(1, 5000))]
+        lavps = [R.LAvp(code, 0x40 | (0x80 if v is not None else 0), v, bytes([65 + i]) * (3 + i)) for i, (v, code) in enumerate(plan)]
+        lm = header_of(g)
+        lm.avps = [g.avp(g.by_name["OriginHostAVP"]).lavp] + lavps
+        wire = R.encode(lm)
+        before = DiameterMessage.load(wire)[0]
+        for a in before.avps[1:]:
+            if type(a) is not DiameterAVP:
+                acc.violation("undefined-pair-not-generic", "(%r, %d) decoded as %s before any class was defined" % (a.get_vendor_id() if a.vendor_id else None, a.get_code(), type(a).__name__), {"wire": wire.hex()})
+        made = []
+        for i, (v, code) in enumerate(plan):
+            def mk(v=v, code=code, i=i):
+                class LateAVP(DiameterAVP, OctetStringType):
+                    pass
+                LateAVP.__name__ = LateAVP.__qualname__ = "Late%dAVP" % i
+                LateAVP.code = convert_to_4_bytes(code)
+                LateAVP.vendor_id = convert_to_4_bytes(v) if v is not None else None
+
+                def __init__(self, data, cls=LateAVP):
+                    if cls.vendor_id is not None:
+                        DiameterAVP.__init__(self, cls.code, cls.vendor_id)
+                        DiameterAVP.set_vendor_id_bit(self, True)
+                        DiameterAVP.set_mandatory_bit(self, True)
+                        OctetStringType.__init__(self, data=data, vendor_id=cls.vendor_id)
+                    else:
+                        DiameterAVP.__init__(self, cls.code)
+                        DiameterAVP.set_mandatory_bit(self, True)
+                        OctetStringType.__init__(self, data=data)
+                LateAVP.__init__ = __init__
+                return LateAVP
+            made.append(mk())
+            after = DiameterMessage.load(wire)[0]
+            acc.counters["load_calls"] += 1
+            acc.counters["late_class_decodes"] += 1
+            acc.evaluations += 1
+            for j, a in enumerate(after.avps[1:]):
+                want = made[j] if j < len(made) else DiameterAVP
+                if type(a) is not want:
+                    acc.violation("late-defined-class-not-materialised" if j < len(made) else "undefined-pair-not-generic",
+                                  "after defining %s: (%r, %d) decoded as %s, expected %s" % ([c.__name__ for c in made], plan[j][0], plan[j][1], type(a).__name__, want.__name__),
+                                  {"wire": wire.hex(), "defined": [(c.__name__, c.vendor_id.hex() if c.vendor_id else None, c.code.hex()) for c in made]})
+            if after.dump() != wire:
+                acc.violation("redump-differs", "message with late-defined classes re-serialises differently", {"wire": wire.hex(), "again": after.dump().hex()})
+            acc.counters["redump_checks"] += 1
+        acc.sigs.add("late-classes")
     elif b["kind"] == "vendor0":
         # deterministic: V flag with Vendor-ID 0 on codes of the base dictionary, single-AVP messages
         for cname in b["classes"]:
@@ -260,6 +312,8 @@ def main(tier, seed):
     for i in range(2 if q else 8):
         batches.append({"kind": "avpload", "n": 1500 if q else 10000, "seed": seed * 7919 + 100 + i})
     batches.append({"kind": "vendor0", "classes": names[::5], "seed": seed})
+    for i in range(2 if q else 16):
+        batches.append({"kind": "late-classes", "seed": seed * 7919 + 300 + i})
     grid = names[seed % 7::7] if q else names
     for i in range(0, len(grid), 8):
         batches.append({"kind": "flaggrid", "classes": grid[i:i + 8], "seed": seed * 7919 + 200 + i})
@@ -273,7 +327,7 @@ def main(tier, seed):
                            "Grouped AVPs always carry their mandatory members (a conformant peer sends them)"],
                           t0, extra_cov={"flag_grid": "all consistent flag bytes x %d classes%s" % (
                               len(grid), "" if q else " (exhaustive over the dictionary)")},
-                          require_counters=("load_calls", "redump_checks", "avp_load_calls"))
+                          require_counters=("load_calls", "redump_checks", "avp_load_calls", "late_class_decodes"))
 
 
 def replay(w):
